@@ -102,6 +102,10 @@ func c04Case(c *core.Ctx, t *dyn.TypeOps, ch, k, s, e int, caseID string, forceC
 				}
 			} else {
 				c.Obs("appending_calls", 1)
+				if win.B.Len() != win.M.Len {
+					c.Violate(inst+"|length", caseID, fmt.Sprintf("call %d on a buffer that was not full (Len %d of Cap %d): Len is now %d, expected %d", calls, win.M.Len-1, win.M.Cap, win.B.Len(), win.M.Len), d)
+					return
+				}
 				if got := win.B.Sample(win.M.Len - 1); !got.Same(v) {
 					c.Violate(inst+"|value", caseID, fmt.Sprintf("call %d: position %d holds %v, appended %v", calls, win.M.Len-1, got, v), d)
 				}
